@@ -61,6 +61,7 @@ type Scn struct {
 	Script    string `json:"script"`         // gate script, "" = none
 	Writer    string `json:"writer"`         // call|push: operation racing the reader / the later operation
 	Losses    int    `json:"losses"`         // number of losses (repeated)
+	Second    bool   `json:"second_session"` // afterwards a second session is dialed from the same client peer and must survive one loss
 	Detector  string `json:"detector"`       // reader|writer|both|-
 	DelaySeed int64  `json:"delay_seed"`     // gate delay perturbation
 	DelayP    int    `json:"delay_permille"` //
@@ -81,8 +82,15 @@ func (s Scn) fp(symptom string) string {
 }
 
 func (s Scn) sig() string {
-	return fmt.Sprintf("%s/b=%d/%s/%s/%s/k=%s/hook=%s/refuse=%s-%s/%s/%s", s.Class, s.Budget, s.Base, s.Detector, s.Script, s.KClass,
+	sig := fmt.Sprintf("%s/b=%d/%s/%s/%s/k=%s/hook=%s/refuse=%s-%s/%s/%s", s.Class, s.Budget, s.Base, s.Detector, s.Script, s.KClass,
 		s.Hook, refClass(s.Refuse), s.Mode, s.Writer, map[bool]string{false: "fin", true: "rst"}[s.RST])
+	if s.Losses > 1 && s.Refuse > 0 {
+		sig += fmt.Sprintf("/losses=%d/refused-per-loss=%d", s.Losses, s.Refuse)
+	}
+	if s.Second {
+		sig += "/second-session"
+	}
+	return sig
 }
 
 func refClass(m int) string {
@@ -221,6 +229,7 @@ type hookRec struct {
 type dialHook struct {
 	handshake bool
 	userID    string
+	dials     int32 // sessions dialed through this hook (isRedial=false)
 	mu        sync.Mutex
 	recs      []hookRec
 }
@@ -236,8 +245,15 @@ func (h *dialHook) PostDial(sess erpc.PreSession, isRedial bool) *erpc.Status {
 			st = erpc.NewStatus(erpc.CodeDialFailed, "handshake", "unexpected reply "+reply)
 		}
 	}
-	if st.OK() && !isRedial && h.userID != "" {
-		sess.SetID(h.userID)
+	if !isRedial {
+		n := atomic.AddInt32(&h.dials, 1)
+		if st.OK() && h.userID != "" {
+			if n == 1 {
+				sess.SetID(h.userID)
+			} else {
+				sess.SetID(fmt.Sprintf("%s-%d", h.userID, n)) // a further session of the same peer gets its own id
+			}
+		}
 	}
 	h.mu.Lock()
 	h.recs = append(h.recs, hookRec{local, isRedial, st.OK()})
@@ -279,7 +295,8 @@ type env struct {
 	hello      *srvHello
 	fw         *fwd.Forwarder
 	cli        erpc.Peer
-	sess       erpc.Session
+	sess       erpc.Session   // the session under test (the second one in the second-session phase)
+	all        []erpc.Session // every session dialed from the client peer
 	hook       *dialHook
 	park       chan struct{}
 	parkRel    sync.Once
@@ -320,7 +337,17 @@ func (e *env) inconclusive(format string, a ...interface{}) {
 	e.mu.Unlock()
 }
 
-func (e *env) isClient(s erpc.Session) bool { return s != nil && e.sess != nil && s == e.sess }
+func (e *env) isClient(s erpc.Session) bool {
+	if s == nil {
+		return false
+	}
+	for _, x := range e.all {
+		if s == x {
+			return true
+		}
+	}
+	return false
+}
 
 func qwait() quiesce.Result {
 	return quiesce.Wait(quiesce.Options{Samples: 5, Interval: 40 * time.Millisecond, Timeout: 30 * time.Second})
@@ -385,6 +412,7 @@ func (e *env) setup() error {
 		return fmt.Errorf("dial: %v", st)
 	}
 	e.sess = sess
+	e.all = append(e.all, sess)
 	gates.OnHit(func(point string, s erpc.Session) {
 		if point == "redialfn.beforeOk" && e.isClient(s) {
 			a := s.LocalAddr().String()
@@ -894,11 +922,88 @@ func (e *env) run() {
 			e.judgeEnded(q)
 			return
 		}
+		if e.endedWithBudgetLeft(fmt.Sprintf("loss %d of %d", round+1, losses)) {
+			return
+		}
 		e.judgeReconnected(hooksBefore, id0)
 		if len(e.viols) > 0 || e.incon != "" {
 			return
 		}
 	}
+	if sc.Second {
+		e.secondSession()
+	}
+}
+
+// roundBudgetNeverExhausted: in this scenario no redial round can legitimately run out of attempts -
+// only the reader redials (no gate script, no writer racing it), and every outage is shorter than one
+// round (the generator turns visible outages longer than the budget into the exhausted class).
+func (e *env) roundBudgetNeverExhausted() bool {
+	sc := e.sc
+	if sc.Budget == 0 || sc.expectEnd() || sc.Script != "" {
+		return false
+	}
+	switch sc.Base {
+	case "idle", "awaiting", "mid-write":
+	default:
+		return false
+	}
+	return sc.Budget < 0 || sc.Refuse <= sc.Budget
+}
+
+// endedWithBudgetLeft: the session "survives" every loss, not only the first - its close notification
+// must not have fired while no redial round ever ran out of attempts.
+func (e *env) endedWithBudgetLeft(when string) bool {
+	if !e.roundBudgetNeverExhausted() || !closeNotified(e.sess) {
+		return false
+	}
+	sc := e.sc
+	e.violate("session-ended-with-budget-left", "after %s the close notification has fired (status=%s) although every outage lasted %d refused attempt(s) and each redial round has %d attempts (RedialTimes=%d): the session ended with budget left; attempts seen by the forwarder: %d",
+		when, statusName(e.sess), sc.Refuse, sc.Budget+1, sc.Budget, e.fw.Attempts())
+	return true
+}
+
+// secondSession dials a further session from the same client peer after the first one went through
+// its outages; it must be redial-enabled like the first: survive one loss (no refused attempt).
+func (e *env) secondSession() {
+	sc := e.sc
+	e.fw.Refuse(0, false)
+	e.fw.Up()
+	s2, st := e.cli.Dial(e.fw.Addr())
+	if !st.OK() {
+		e.inconclusive("second session: dial failed: %v", st)
+		return
+	}
+	first := e.sess
+	e.sess = s2
+	e.all = append(e.all, s2)
+	core.Add("second_sessions", 1)
+	w := e.start("call", "probe")
+	if !waitOp(w, gateWait) || !w.Good {
+		e.inconclusive("second session: warm-up call failed: code=%d %s", w.Code, w.Msg)
+		return
+	}
+	id0 := s2.ID()
+	pipe := e.fw.Current()
+	if pipe == nil || pipe.Dead() || pipe.ClientAddr() != s2.LocalAddr().String() {
+		e.inconclusive("second session: its forwarded connection was not identified")
+		return
+	}
+	hooksBefore := len(e.hook.snapshot())
+	e.markFault()
+	pipe.Drop(sc.RST)
+	core.Add("losses_injected", 1)
+	q := qwait()
+	if !q.Quiescent {
+		e.inconclusive("watchdog: process not quiescent after the second session's loss (%s)", strings.Join(briefStuck(q), " | "))
+		return
+	}
+	if closeNotified(s2) {
+		e.violate("session-ended-with-budget-left", "a second session dialed from the same client peer (RedialTimes=%d) after the first session's outages ended at its first loss although no attempt was refused: close notification fired, status=%s (the first session: status=%s, close notified=%v)",
+			sc.Budget, statusName(s2), statusName(first), closeNotified(first))
+		return
+	}
+	e.judgeReconnected(hooksBefore, id0)
 }
 
 // judgeReconnected applies clause 2 after a loss from which the session must recover.
@@ -1161,8 +1266,8 @@ func (e *env) cleanup() bool {
 	}
 	done := make(chan struct{})
 	go func() {
-		if e.sess != nil {
-			e.sess.Close()
+		for _, x := range e.all {
+			x.Close()
 		}
 		if e.cli != nil {
 			e.cli.Close()
